@@ -49,8 +49,8 @@ def case_st(draw):
     segs = [b - a for a, b in zip([0] + cuts, cuts + [n])]
     if draw(st.integers(0, 3)) == 0:
         segs.insert(draw(st.integers(0, len(segs))), 0)
-    driver = draw(st.sampled_from(["Canonical", "Canonical", "GrandCanonical", "ForceBias"]))
-    eps = ["run", "irun"] if driver == "ForceBias" else ["run", "srun", "irun"]
+    driver = draw(st.sampled_from(["Canonical", "GrandCanonical", "ForceBias", "Isobaric", "HamiltonianCanonical", "AdaptiveForceBias"]))
+    eps = ["run", "irun"] if "ForceBias" in driver else ["run", "srun", "irun"]
     ivals = draw(st.lists(st.sampled_from([1, 2, 3, 5, -1, -3, -n, -(n + 2)]), min_size=1, max_size=4))
     return {
         "driver": driver, "n": n, "segments": segs, "entry": [draw(st.sampled_from(eps)) for _ in segs],
@@ -79,6 +79,25 @@ def build(case):
         mc = GrandCanonical(atoms, exchange_atoms=Atoms("Ar"), temperature=3000.0, chemical_potential=-0.3, number_of_exchange_particles=3, max_cycles=2, **kw)
         mc.add_move(DisplacementMove(np.arange(3), Ball(0.3)), name="d")
         mc.add_move(ExchangeMove(np.arange(3)), name="x")
+    elif case["driver"] == "Isobaric":
+        from quansino.mc.isobaric import Isobaric
+        from quansino.moves.cell import CellMove
+
+        mc = Isobaric(atoms, temperature=3000.0, pressure=0.01, max_cycles=2, **kw)
+        mc.add_move(CellMove(), name="c")
+        mc.add_move(DisplacementMove(np.arange(3), Ball(0.3)), name="d")
+    elif case["driver"] == "HamiltonianCanonical":
+        from quansino.integrators.displacement import Verlet
+        from quansino.mc.canonical import HamiltonianCanonical
+        from quansino.moves.displacement import HamiltonianDisplacementMove
+
+        mc = HamiltonianCanonical(atoms, temperature=3000.0, max_cycles=1, **kw)
+        mc.add_move(HamiltonianDisplacementMove(operation=Verlet(dt=2.0, max_steps=3)), name="h")
+    elif case["driver"] == "AdaptiveForceBias":
+        from quansino.mc.fbmc import AdaptiveForceBias
+
+        atoms.calc = ModelCalc("pair", {"k": 0.05, "center": (2.5, 2.5, 2.5), "a": 0.4, "s": 1.6}, committee=[-0.05, 0.0, 0.07])
+        mc = AdaptiveForceBias(atoms, min_delta=0.02, max_delta=0.1, temperature=1000.0, **kw)
     else:
         mc = ForceBias(atoms, delta=0.1, temperature=1000.0, **kw)
 
